@@ -58,7 +58,7 @@ def gen_case(rng, tier):
             col[rng.randrange(1 if shape == "prefix_null" else 0, n)] = None
     if rng.random() < 0.12:
         col = [None if r is None else r % 2 for r in col]        # two labels at most: also boolean keys
-    kind = rng.choice([k for k in ["float", "int", "str", "dt", "dttz", "bool", "bool"] if api.kind_ok(col, k)])
+    kind = rng.choice([k for k in ["float", "int", "str", "dt", "dttz", "date", "bool", "bool"] if api.kind_ok(col, k)])
     nkeys = 1 if rng.random() < 0.8 else 2
     keycols = [col] + [[rng.randrange(2) for _ in range(n)] for _ in range(nkeys - 1)]
     kinds = [kind] + ["int"] * (nkeys - 1)
@@ -134,7 +134,7 @@ def run_strategy(GroupBy, c, strat):
     n = len(c["vals"])
     parts = set(strat.split("+")) if strat else set()
     col, kind = c["keycols"][0], c["kinds"][0]
-    if "arrowkeys" in parts and kind in ("float", "int", "str", "dt", "dttz"):
+    if "arrowkeys" in parts and kind in ("float", "int", "str", "dt", "dttz", "date"):
         key0 = api.make_key(col, kind, "arrow_chunked", chunks=c["key_chunks"])
     else:
         key0 = api.make_key(col, kind, "numpy")
@@ -239,7 +239,7 @@ def chunked_model_stream(res, rng, tier):
             continue
         col, kind = c["keycols"][0], c["kinds"][0]
         func = rng.choice(list(FUNC))
-        arrow = rng.random() < 0.5 and kind in ("float", "int", "str", "dt", "dttz")
+        arrow = rng.random() < 0.5 and kind in ("float", "int", "str", "dt", "dttz", "date")
         key = api.make_key(col, kind, "arrow_chunked", chunks=c["key_chunks"]) if arrow else api.make_key(col, kind, "numpy")
         with api.strategy(chunk_threshold=4):
             try:
